@@ -124,7 +124,10 @@ def finish(prop, results, t0, seed, tier, level="proof", extra_cov=None, assumpt
             known.append((o, f))
             continue
         det = o.get("detail", "")
-        if det.startswith("NOT-CONFIRMED"):
+        if det.startswith("NOWITNESS"):
+            o["status"] = "undecided"      # a failed structural obligation without a failing input is not a violation
+            undecided.append(o)
+        elif det.startswith("NOT-CONFIRMED"):
             faults.append(o)
         else:
             violations.append(o)
